@@ -78,19 +78,33 @@ end Nest
 namespace HF
 open Nest
 
-/-- loop headers of an emitted program, outermost first (first nest only): loop variable and the variables read by
-    the iteration expression -/
+/-- the iteration expression without the observer wrappers: `enumerate(e)` is `e` (the position only feeds the display) -/
+def stripEnumerate : Expr → Expr × Bool
+  | .func "enumerate" _ [e] => (e, true)
+  | e => (e, false)
+
+/-- names in an iteration expression that are API names, not fibers -/
+def apiNames : List String := ["enumerate", "Fiber"]
+
+/-- loop headers of an emitted program, outermost first: loop variable and the fiber variables read by the iteration
+    expression.  Observer forms are read through: `for (k_pos, (k, P)) in enumerate(e)` is the loop `for (k, P) in e`, and
+    `Fiber.intersection(l, f, ..., style="leader-follower")` reads the same fibers as `l & f & ...` (co-iteration does not depend
+    on the order of the operands: `C11.coiterT_perm`). -/
 partial def loopSkeleton : Stmt → List (String × List String)
   | .block ss => ss.flatMap loopSkeleton
   | .for_ p e b =>
-    let v := match p with
+    let (e', enum) := stripEnumerate e
+    let p' := match enum, p with
+      | true, .tuple [_, q] => q
+      | _, q => q
+    let v := match p' with
       | .tuple (.var x :: _) => x
       | .tuple (.tuple vs :: _) => String.join (vs.map fun
           | .var x => x
           | _ => "?")
       | .var x => x
       | _ => "?"
-    (v, e.reads.eraseDups) :: loopSkeleton b
+    (v, (e'.reads.filter fun x => !apiNames.contains x).eraseDups) :: loopSkeleton b
   | _ => []
 
 end HF
